@@ -19,7 +19,11 @@
 //! }
 //! // ...
 //! ```
+#[cfg(not(feature = "verif"))]
 use std::collections::HashSet;
+#[cfg(feature = "verif")]
+#[allow(unused_imports)]
+use crate::verif::{HashSet, MapNew};
 use std::fmt::Display;
 
 use crate::annotations::{Disease, Gene, OmimDisease, OrphaDisease};
